@@ -297,6 +297,7 @@ MUTATIONS = (
     "flip_ez",
     "change_edit",
     "swap_roles",
+    "desc_class",
 )
 
 
@@ -372,6 +373,22 @@ def mutate(rng, pg, kind=None):
                     i, j = rng.sample(range(1, len(atoms)), 2)
                 atoms[i], atoms[j] = atoms[j], atoms[i]
                 nd = (d[0], tuple(atoms), d[2])
+                if len(key) == 2:
+                    g[key[0]][key[1]] = nd
+                else:
+                    g[key[0]][key[1]][key[2]] = nd
+                return k, g
+        if k == "desc_class":
+            # same atoms in the same order, another descriptor class of the same size (Tetrahedral <-> SquarePlanar,
+            # PlanarBond <-> AtropBond - the latter two share their permutation group): only the class tells them apart
+            other = {"Tetrahedral": "SquarePlanar", "SquarePlanar": "Tetrahedral", "PlanarBond": "AtropBond", "AtropBond": "PlanarBond"}
+            keys = [(kk, a) for kk in ("astereo", "bstereo") for a, d in g[kk].items() if d[0] in other and d[2] is not None]
+            keys += [(kk, a, s_) for kk in ("achange", "bchange") for a, v in g[kk].items() for s_, d in v.items() if d[0] in other and d[2] is not None]
+            if keys:
+                key = rng.choice(keys)
+                d = g[key[0]][key[1]] if len(key) == 2 else g[key[0]][key[1]][key[2]]
+                nc = other[d[0]]
+                nd = (nc, tuple(d[1]), rng.choice([1, -1]) if sem.CHIRAL[nc] else 0)
                 if len(key) == 2:
                     g[key[0]][key[1]] = nd
                 else:
